@@ -57,8 +57,10 @@ func (m *Manager) HeaderStoreRetrieveLoop(ctx context.Context) {
 				case m.headerInCh <- NewHeaderEvent{header, daHeight}:
 				}
 			}
+			// only ever move forward: a store that is still empty (height 0) must not pull the
+			// cursor below the node's own height, or heights that do not exist would be requested
+			lastHeaderStoreHeight = headerStoreHeight
 		}
-		lastHeaderStoreHeight = headerStoreHeight
 	}
 }
 
@@ -105,8 +107,9 @@ func (m *Manager) DataStoreRetrieveLoop(ctx context.Context) {
 				case m.dataInCh <- NewDataEvent{d, daHeight}:
 				}
 			}
+			// only ever move forward (see HeaderStoreRetrieveLoop)
+			lastDataStoreHeight = dataStoreHeight
 		}
-		lastDataStoreHeight = dataStoreHeight
 	}
 }
 
